@@ -436,7 +436,8 @@ def _run_case(s, chunks, rows, probe, events, between_reads, sync_keys):
     obs_marks = [len(s.obs)]
     tio = []
     for k, ch in enumerate(chunks):
-        if not s.alive:
+        if not s.alive or "timeout" in statuses:
+            # (a child that stopped consuming its input: the verdict is `wedged`; nothing sent later can change it)
             break
         statuses.append(s.send(ch, stall=(events or {}).get("stall:%d" % k)))
         if sync_keys:
